@@ -65,6 +65,15 @@ func ValuesB(w int) [][]byte {
 		b[i] = 0x80
 		out = append(out, b)
 	}
+	if w == 16 {
+		// values that Go's net.IP treats specially: the IPv4-mapped prefix ::ffff:0:0/96 (To4() is
+		// non-nil for a 16-byte slice), the loopback ::1 and an IPv4-compatible ::a.b.c.d
+		out = append(out,
+			[]byte{0, 0, 0, 0, 0, 0, 0, 0, 0, 0, 0xff, 0xff, 10, 1, 2, 3},
+			[]byte{0, 0, 0, 0, 0, 0, 0, 0, 0, 0, 0xff, 0xff, 0xff, 0xff, 0xff, 0xff},
+			[]byte{0, 0, 0, 0, 0, 0, 0, 0, 0, 0, 0, 0, 0, 0, 0, 1},
+			[]byte{0, 0, 0, 0, 0, 0, 0, 0, 0, 0, 0, 0, 10, 1, 2, 3})
+	}
 	return out
 }
 
